@@ -41,6 +41,12 @@ Definition unguarded_allowed : list string := [ "supervisor.sendRemoteCommEvent"
 Definition dynamic_fault_allowed : list string :=
   [ "_readProcessLog"; "getFaultDescription"; "readLog" ].
 
+(* "while supervisord is shutting down or restarting" *)
+Definition mood_code (n : string) : Z :=
+  match lookup n moods_table with Some c => c | None => upd_threshold end.
+Definition stopping_moods : list Z := [mood_code "RESTARTING"; mood_code "SHUTDOWN"].
+Definition running_mood : Z := mood_code "RUNNING".
+
 Local Close Scope string_scope.
 
 Definition modelled_root (root : roottable) : Prop := root = root_table \/ root = mroot_table.
@@ -278,7 +284,7 @@ Proof.
   - intros (ns & m & H). apply resolved_in_pairs in H. destruct H as (N & I & _).
     subst name. apply mem_str_In.
     exact (proj1 (forallb_forall _ _) pairs_listed_root (ns, m) I).
-  - intro I. pose proof (proj1 (forallb_forall _ _) listed_resolve_root name I) as R. simpl in R.
+  - intro I. pose proof (proj1 (forallb_forall _ _) listed_resolve_root name I) as R. cbv beta in R.
     destruct (resolve root_table name) as [|ns m|]; try discriminate. exists ns, m. reflexivity.
 Qed.
 
@@ -289,17 +295,30 @@ Proof.
   destruct (resolve_parts_cases mroot_table ns m) as [M|(M & U' & A')]; rewrite R, M; try reflexivity.
   - exfalso. pose proof (attr_in_pairs _ _ _ U' A') as I.
     pose proof (proj1 (forallb_forall _ _) pairs_mroot_in_root (ns, m) I) as X.
-    simpl in X. rewrite R in X. discriminate.
+    cbv beta in X; cbn [fst snd] in X. rewrite R in X. discriminate.
   - exfalso. pose proof (attr_in_pairs _ _ _ U A) as I.
     pose proof (proj1 (forallb_forall _ _) pairs_root_in_mroot (ns, m) I) as X.
-    simpl in X. rewrite M in X. discriminate.
+    cbv beta in X; cbn [fst snd] in X. rewrite M in X. discriminate.
+Qed.
+
+Lemma resolve_alt root name :
+  resolve root name =
+  match split_dot name with [ns; m] => resolve_parts root ns m | _ => RRefused end.
+Proof.
+  unfold resolve. destruct traverse_facts as (P & _). rewrite P.
+  change (2 <? 0) with false. cbn [orb].
+  destruct (split_dot name) as [|a [|b [|c r]]]; try reflexivity.
+  cbn [List.length].
+  destruct (Z.of_nat (S (S (S (List.length r)))) =? 2) eqn:E; [|reflexivity].
+  apply Z.eqb_eq in E. lia.
 Qed.
 
 (* system.multicall's AttrDict root resolves exactly what the handler's root resolves *)
 Theorem roots_agree name : resolve mroot_table name = resolve root_table name.
 Proof.
-  unfold resolve. destruct (split_dot name) as [|a [|b [|c r]]]; try reflexivity.
-  rewrite resolve_parts_agree. reflexivity.
+  rewrite !resolve_alt.
+  destruct (split_dot name) as [|a [|b [|c r]]]; cbv beta iota;
+    [reflexivity|reflexivity|apply resolve_parts_agree|reflexivity].
 Qed.
 
 Lemma resolved_has_info root name ns m :
@@ -310,7 +329,7 @@ Proof.
   assert (H' : resolve root_table name = RResolved ns m).
   { destruct MR as [->| ->]; [exact H|]. rewrite <- roots_agree. exact H. }
   apply resolved_in_pairs in H'. destruct H' as (_ & I & _).
-  pose proof (proj1 (forallb_forall _ _) pairs_have_info_root (ns, m) I) as X. simpl in X.
+  pose proof (proj1 (forallb_forall _ _) pairs_have_info_root (ns, m) I) as X. cbv beta in X; cbn [fst snd] in X.
   destruct (find_info ns m method_info) as [i|]; [exists i; reflexivity|discriminate].
 Qed.
 
@@ -337,7 +356,7 @@ Proof.
     { pose proof pairs_nonempty_parts as P. rewrite forallb_forall in P.
       assert (I' : In (ns, m) (resolvable_pairs root_table ++ resolvable_pairs mroot_table)).
       { apply in_or_app. destruct MR as [->| ->]; [left|right]; exact I. }
-      specialize (P _ I'). simpl in P. apply andb_true_iff in P. destruct P as [P1 P2].
+      specialize (P _ I'). cbv beta in P; cbn [fst snd] in P. apply andb_true_iff in P. destruct P as [P1 P2].
       split; intro E; subst.
       - rewrite String.eqb_refl in P1. discriminate.
       - rewrite String.eqb_refl in P2. discriminate. }
@@ -394,13 +413,13 @@ Section ShapeAndGuard.
     shutting_down st -> forallb (prestep_ok ns) pre = true ->
     fold_left (run_prestep St Arg mood_of pre_effect ns args) pre st = st.
   Proof.
-    intros SD. induction pre as [|s r IH]; simpl; [reflexivity|].
+    intros SD. induction pre as [|s r IH]; cbn [forallb fold_left]; [reflexivity|].
     intro H. apply andb_true_iff in H. destruct H as [H1 H2].
     assert (E : run_prestep St Arg mood_of pre_effect ns args st s = st).
-    { destruct s as [|t]; [reflexivity|]. simpl. simpl in H1.
+    { destruct s as [|t]; [reflexivity|]. unfold run_prestep. unfold prestep_ok in H1.
       destruct (find_info ns t method_info) as [j|]; [|discriminate].
       apply andb_true_iff in H1. destruct H1 as [G _]. rewrite G.
-      rewrite (below_when_shutting_down st _ SD). reflexivity. }
+      rewrite (below_when_shutting_down st (mi_update_text j) SD). reflexivity. }
     rewrite E. apply IH. exact H2.
   Qed.
 
@@ -436,7 +455,7 @@ Theorem control_guarded :
   Forall (fun n => exists i, info_of_name n = Some i /\ guarded i = true) control_methods.
 Proof.
   apply Forall_forall. intros n I.
-  pose proof (proj1 (forallb_forall _ _) control_guarded_check n I) as H. simpl in H.
+  pose proof (proj1 (forallb_forall _ _) control_guarded_check n I) as H. cbv beta in H.
   destruct (info_of_name n) as [i|]; [|discriminate]. exists i. split; [reflexivity|exact H].
 Qed.
 
@@ -455,7 +474,7 @@ Theorem unguarded_exact name ns m :
             (guarded i = true \/ ns = "system"%string \/ In name unguarded_allowed).
 Proof.
   intro H. apply resolved_in_pairs in H. destruct H as (N & I & _).
-  pose proof (proj1 (forallb_forall _ _) unguarded_check (ns, m) I) as X. simpl in X.
+  pose proof (proj1 (forallb_forall _ _) unguarded_check (ns, m) I) as X. cbv beta in X; cbn [fst snd] in X.
   destruct (find_info ns m method_info) as [i|]; [|discriminate]. exists i. split; [reflexivity|].
   apply orb_true_iff in X. destruct X as [X|X].
   - apply orb_true_iff in X. destruct X as [X|X]; [left; exact X|].
@@ -463,11 +482,49 @@ Proof.
   - right. right. subst name. apply mem_str_In. exact X.
 Qed.
 
+Lemma stopping_moods_below :
+  forallb (fun m => m <? upd_threshold) stopping_moods = true /\ (running_mood <? upd_threshold) = false.
+Proof. split; vm_compute; reflexivity. Qed.
+
 Section ShutdownGuard.
   Variables St Val Cb Arg : Type.
   Variable mood_of : St -> Z.
   Variable body : string -> list Arg -> St -> St * bres Val Cb.
   Variable pre_effect : string -> list Arg -> St -> St.
+
+  Lemma stopping_is_shutting_down st :
+    In (mood_of st) stopping_moods -> shutting_down St mood_of st.
+  Proof.
+    intro I. destruct stopping_moods_below as [B _].
+    pose proof (proj1 (forallb_forall _ _) B _ I) as X. cbv beta in X.
+    apply Z.ltb_lt in X. exact X.
+  Qed.
+
+  (* in the RUNNING mood the guard lets the body run *)
+  Theorem running_not_refused i args st :
+    mood_of st = running_mood -> mi_guard i = GFirst ->
+    arity_ok i (Z.of_nat (List.length args)) = true ->
+    invoke St Val Cb Arg mood_of body pre_effect i args st =
+      let '(st2, r) := body (mi_target i) args st in (st2, of_bres Val Cb r, [mi_target i]).
+  Proof.
+    intros M G A. unfold invoke. rewrite A, G. cbn [negb].
+    unfold below. rewrite M. destruct stopping_moods_below as [_ R]. rewrite R.
+    rewrite andb_false_r. cbn [andb]. reflexivity.
+  Qed.
+
+  Theorem shutdown_guard_moods name args st :
+    In name control_methods -> In (mood_of st) stopping_moods ->
+    exists c, dispatch St Val Cb Arg mood_of body pre_effect root_table name args st = (st, OFault c, [])
+              /\ (c = F_shutdown \/ c = F_typeerror).
+  Proof.
+    intros I M. apply stopping_is_shutting_down in M. revert I M.
+    intros I SD.
+    destruct (proj1 (Forall_forall _ _) control_guarded name I) as (i & FI & G).
+    unfold info_of_name in FI. unfold dispatch.
+    destruct (resolve root_table name) as [|ns m|]; try discriminate.
+    rewrite FI. rewrite (guard_effect St Val Cb Arg mood_of body pre_effect i args st G SD).
+    eexists. split; [reflexivity|]. destruct (arity_ok _ _); [left|right]; reflexivity.
+  Qed.
 
   Theorem shutdown_guard name args st :
     In name control_methods -> shutting_down St mood_of st ->
@@ -552,8 +609,8 @@ Theorem multicall_single_name name ns m i :
   mi_target i = "SystemNamespaceRPCInterface.multicall"%string -> name = mc_recursion_name.
 Proof.
   intros H FI T. apply resolved_in_pairs in H. destruct H as (N & I & _).
-  pose proof (proj1 (forallb_forall _ _) multicall_single_name_check (ns, m) I) as X. simpl in X.
-  rewrite FI, T in X. rewrite String.eqb_refl in X. simpl in X.
+  pose proof (proj1 (forallb_forall _ _) multicall_single_name_check (ns, m) I) as X. cbv beta in X; cbn [fst snd] in X.
+  rewrite FI, T in X. rewrite String.eqb_refl in X. cbn [negb orb] in X.
   apply String.eqb_eq in X. subst name. exact X.
 Qed.
 
@@ -569,7 +626,7 @@ Theorem faults_referenced_exist :
   (forall f, In f dynamic_fault_sites -> In f dynamic_fault_allowed).
 Proof.
   destruct faults_referenced_check as [A B]. split.
-  - intros n I. pose proof (proj1 (forallb_forall _ _) A n I) as X. simpl in X.
+  - intros n I. pose proof (proj1 (forallb_forall _ _) A n I) as X. cbv beta in X.
     destruct (lookup n faults_table) as [c|]; [exists c; reflexivity|discriminate].
   - intros f I. apply mem_str_In. exact (proj1 (forallb_forall _ _) B f I).
 Qed.
